@@ -208,6 +208,7 @@ theorem grows_exec {sys : Sys} (h : SysInv sys) (a : Action) (hf : a.fresh = tru
   | er g k n l => exact .same h.store (SameUsages.touchRes _ g k n l).usages
   | stepW n o c => simp [Action.fresh] at hf
   | xaRaw n c => simp [Action.fresh] at hf
+  | ef n0 => simp [Action.fresh] at hf
   | start n =>
     simp only [Sys.exec]
     split
@@ -676,6 +677,7 @@ theorem trk_exec {sys : Sys} (h : SysInv sys) (a : Action) (hf : a.fresh = true)
   | er g' k n' l => exact ht.env h.store g hpre hpost.1
   | stepW n' o c => simp [Action.fresh] at hf
   | xaRaw n' c => simp [Action.fresh] at hf
+  | ef n0 => simp [Action.fresh] at hf
   | start m =>
     simp only [Sys.exec]
     split
